@@ -239,6 +239,51 @@ def bootTestset (f : TestFn) (s : Stack Lbl α) (rdmBy patBy : String) (drawsR d
       some ⟨r, some ri, none, some tr, none, test⟩
     | _, _ => none
 
+/-! ### round 6: large stacks — restriction to some RDMs, block-wise evaluation -/
+
+/-- the stack made of the RDMs at positions `rows` (all conditions kept) -/
+def Stack.restrictRdm {L α : Type} (s : Stack L α) (rows : List Nat) : Stack L α :=
+  { s with vecs := pick s.vecs rows, rdmDesc := extract s.rdmDesc rows }
+
+/-- `l` cut into consecutive blocks of `b` items, the last one shorter (`fuel` ≥ number of blocks) -/
+def chunksAux {β : Type} (b : Nat) : Nat → List β → List (List β)
+  | 0, _ => []
+  | fuel + 1, l => if l.isEmpty then [] else l.take b :: chunksAux b fuel (l.drop b)
+
+def chunks {β : Type} (b : Nat) (l : List β) : List (List β) := chunksAux b l.length l
+
+/-- `subsample_pattern` evaluated block by block: the RDMs are converted / NaN-diagonalised /
+    selected `b` at a time and the blocks concatenated (a memory-saving implementation) -/
+def Stack.subsamplePatternBlocked {L α : Type} [DecidableEq L] (b : Nat) (s : Stack L α)
+    (by_ : String) (value : List L) : Option (Stack L α) :=
+  match s.patDesc.lookup by_ with
+  | none => none
+  | some desc =>
+    let sel := patSelection desc value
+    some { nCond := sel.length
+           vecs := (chunks b s.vecs).flatMap (fun blk => blk.map (subVec s.nCond sel))
+           rdmDesc := s.rdmDesc
+           patDesc := extract s.patDesc sel }
+
+/-- one bootstrap draw on a (restricted) stack `s` where the drawn values come from the grouping
+    descriptors of the *whole* source (`full`) and the recorded draws: what the driver op
+    `c09.large` runs.  With `full` = the stack's own descriptor this is `bootstrapSample…Np`. -/
+def largeSample (s : Stack Lbl α) (rdm : Option (String × List Lbl × List Nat))
+    (pat : Option (String × List Lbl × List Nat)) :
+    Option (Stack Lbl α × List Lbl × List Lbl) :=
+  let s1 : Option (Stack Lbl α × List Lbl) :=
+    match rdm with
+    | none => some (s, [])
+    | some (rdmBy, full, draws) =>
+      let idx := bootIdx (uniq Lbl.le (npCoerce full)) draws
+      (s.subsample rdmBy idx).map (fun r => (r, idx))
+  match s1, pat with
+  | none, _ => none
+  | some (r, ri), none => some (r, ri, [])
+  | some (r, ri), some (patBy, full, draws) =>
+    let idx := bootIdx (uniq Lbl.le (npCoerce full)) draws
+    (r.subsamplePatternNp patBy idx).map (fun q => (q, ri, idx))
+
 /-- the request of a call site with numpy's coercion in `np.unique` -/
 def drawRequestNp (site : Site) (desc : List Lbl) : Nat × Nat × Nat :=
   drawRequest site Lbl.le (npCoerce desc)
